@@ -16,6 +16,15 @@ CHECKS = {
  "C01": dict(cat="exploration", tech="runtime monitoring: reference-model monitor (independent expression evaluator) over systematic operator x operand-class x position cells and seeded random trees",
    text="Every binary operator x every ordered pair of 17 operand classes, every unary, every ordered operator pair in both nestings (minimal and redundant parentheses), every function x argument classes, every literal and data-reference form, placed in 21 syntactic positions, plus seeded random typed trees: compiled and rendered by the real code and compared with a reference evaluator (value text, must-error cases, acceptance of valid source). Held on the cells and trees executed.",
    note="Trusted: reference evaluator/printer in /verif/harness/ref (official precedence table). Out-of-domain cases (ill-typed operands, ints beyond 2^53, float text outside the dyadic zone, map order) are dropped and counted, not judged.", ref="DESIGN.md §6 C01, §5.1"),
+ "C15": dict(cat="exploration", tech="runtime monitoring: reference-rule monitor over an exhaustively enumerated bounded alphabet of text runs x neighbour tags, rendered by the real code",
+   text="Every string of length <=5 (thorough <=7) over {a < > space tab CR LF é} is placed as template text between 11x10 kinds of neighbouring tags, compiled and rendered; the output must equal the line-joining rule. Comment placements are compared modulo whitespace. Exhaustive for the bounded alphabet, sampled beyond.",
+   note="Trusted: the 40-line statement of the rule in ref/rawtext.go. Whitespace touching comments and Unicode spaces are not judged.", ref="DESIGN.md §6 C15"),
+ "C17": dict(cat="exploration", tech="runtime monitoring: round-trip monitor (real parser used twice, reflective tree comparison) over systematic operator-nesting cells and seeded random trees",
+   text="parse.Expr(s).String() must parse again to a structurally identical tree (positions ignored), for every operator as parent x every operator as child in every slot, hostile literals and keys, and seeded random trees; the same for print commands with directives; two different trees seen in one process must not share a printed form.",
+   note="The oracle is the code under test's own parser; tree comparison by reflection in the harness.", ref="DESIGN.md §6 C17"),
+ "C20": dict(cat="exploration", tech="runtime monitoring: expectation-by-construction monitor for data.New/NewWith plus pairwise law checks (symmetry, numeric equality, truthiness table, String determinism)",
+   text="Seeded nested Go values over every reflect kind the converter accepts (expectation built together with the value), under both struct-option settings, must convert to the same structure and be idempotent; all ordered pairs of a pool of ~80 values must satisfy symmetric Equals, int/float numeric equality and the truthiness table.",
+   note="Trusted: the value/expectation constructors in props/c20.go.", ref="DESIGN.md §6 C20"),
 }
 PENDING = "check not built yet (planned with runtime monitoring, see DESIGN.md §6); not claimed"
 props = [json.loads(l)['id'] for l in open('/verif/properties.jsonl')]
